@@ -44,7 +44,7 @@ def main(run):
                 # equal axes), monodisperse
                 hit_ = False
                 for p_ in info.parameters.kernel_parameters:
-                    if p_.name in pars and p_.type == "volume" and p_.units == "" and p_.length == 1 and not p_.choices and p_.limits[0] <= 1.0 <= p_.limits[1]:
+                    if p_.name in pars and p_.type == "volume" and p_.units in ("", "None") and p_.length == 1 and not p_.choices and p_.limits[0] <= 1.0 <= p_.limits[1]:
                         pars[p_.name] = 1.0; hit_ = True
                 if not hit_:
                     continue
